@@ -52,6 +52,7 @@ def run(ctx):
     from . import C12, C18
     ctx.do(C18.rule_newest_of_filtered, "C11.newest")
     ctx.do(C12.rule_optimiser, rule_id="C11.filesystem-pruning")
+    ctx.do(C12.rule_layout_classified_by_content, rule_id="C11.filesystem-pruning")
     from .pitfalls import rule_groupby_sorted, rule_single_use_iterators
     ctx.do(rule_groupby_sorted, "C11.iterator-pitfalls", ("stix2.datastore",))
     ctx.do(rule_single_use_iterators, "C11.iterator-pitfalls", ("stix2.datastore",))
